@@ -96,13 +96,20 @@ func (a *accSim) apply(idxs []int, nadd int) {
 		l := &cur.leaves[base+j]
 		added = append(added, consensus.VerifLeaf{Elem: &l.se, ElementHash: l.ehash, Spent: l.spent})
 	}
-	eau := consensus.VerifAccApply(&cur.acc, updated, added)
+	var eau *consensus.VerifApplyUpdate
+	if pan, msg := try(func() { eau = consensus.VerifAccApply(&cur.acc, updated, added) }); pan {
+		r.violate("c05.apply-panic", "applyBlock panicked (%s) on history %s + [upd %v add %d]", msg, a.describe(), idxs, nadd)
+		return
+	}
 	for j := 0; j < nadd; j++ {
 		blk.add = append(blk.add, cur.leaves[base+j])
 	}
 	for i := 0; i < base; i++ {
 		if !isUpd[i] {
-			eau.UpdateElementProof(&cur.leaves[i].se)
+			if pan, msg := try(func() { eau.UpdateElementProof(&cur.leaves[i].se) }); pan {
+				r.violate("c05.update-panic", "UpdateElementProof panicked (%s) for leaf %d on history %s + [upd %v add %d]", msg, i, a.describe(), idxs, nadd)
+				return
+			}
 		}
 	}
 	a.states = append(a.states, cur)
@@ -139,7 +146,10 @@ func (a *accSim) revert() {
 	res := simState{acc: pre.acc}
 	for i := 0; i < len(pre.leaves); i++ {
 		l := post.leaves[i].copy()
-		eru.UpdateElementProof(&l.se)
+		if pan, msg := try(func() { eru.UpdateElementProof(&l.se) }); pan {
+			a.r.violate("c05.revert-update-panic", "revert UpdateElementProof panicked (%s) for leaf %d reverting block %d of %s", msg, i, n-2, a.describe())
+			l = pre.leaves[i].copy()
+		}
 		if isUpd[i] {
 			l.ehash, l.spent = pre.leaves[i].ehash, pre.leaves[i].spent
 		}
